@@ -33,3 +33,13 @@ Example C05_middle_drop :
   let out := run_steps nat nat [SFilter nat (fun g => negb (Nat.eqb g 2))] (map (attach nat nat) items) in
   map (labels_of nat nat 1) out = [[10]; [30]] /\ map (strip nat nat 1) out = [(1, []); (3, [])].
 Proof. split; reflexivity. Qed.
+
+(* a pipeline rebuilt from its serialised form or from a replay record joins the same label fields: the parameter
+   classes persist every constructor argument, `label_fields` included, under its own name (regenerated table of the
+   `_to_dict` methods, followed through super() calls only) *)
+From Coq Require Import String.
+From DV.gen Require Import Gen_classtab.
+From DV.proofs Require Import ClassFacts CF_C14.
+Theorem C05_label_fields_survive_serialisation : forallb todict_row_ok todict_table = true.
+Proof. exact todict_ok. Qed.
+Print Assumptions C05_label_fields_survive_serialisation.
